@@ -163,8 +163,9 @@ func q(s string) string {
 // []any, nil) with a model value; absent (nil) equals the zero value. For the
 // key "level" both the name and the number are accepted.
 func jsonEq(key string, got any, want any) error {
+	isLevel := key[strings.LastIndex(key, ".")+1:] == "level"
 	if got == nil {
-		if isZero(want) || (key == "level" && false) {
+		if isZero(want) {
 			return nil
 		}
 		return fmt.Errorf("%s is missing, want %v", key, want)
@@ -176,7 +177,7 @@ func jsonEq(key string, got any, want any) error {
 			return fmt.Errorf("%s = %v, want %s", key, show(got), q(w))
 		}
 	case int:
-		if key == "level" {
+		if isLevel {
 			if g, ok := got.(string); ok {
 				if w >= 0 && w < len(levelNames) && g == levelNames[w] {
 					return nil
@@ -233,7 +234,7 @@ type ExportSpec struct {
 	Pretty       bool     `json:"pretty"`
 	TextCol      string   `json:"text_col"`
 	IDCol        string   `json:"id_col"`
-	Preset       string   `json:"preset,omitempty"`       // "", ToJSON, ToJSONL, ToCSV, ToTSV (collection methods)
+	Preset       string   `json:"preset,omitempty"`        // "", ToJSON, ToJSONL, ToCSV, ToTSV (collection methods)
 	ConfigPreset string   `json:"config_preset,omitempty"` // informational label
 }
 
@@ -309,12 +310,6 @@ func checkJSONRecord(obj map[string]any, s ChunkSpec, e ExportSpec) error {
 		}
 		if !e.allowed(k) {
 			return fmt.Errorf("metadata key %q is not in MetadataFields %q", k, e.Fields)
-		}
-		if err := jsonEq("metadata."+k, v, s.metaValue(k)); err != nil { // also for present zero values
-			if k == "level" {
-				continue // "level" zero value is a name ("document"); compared above
-			}
-			return err
 		}
 	}
 	return nil
@@ -560,7 +555,7 @@ func checkCSV(out string, specs []ChunkSpec, e ExportSpec, delims []byte, header
 			v := s.metaValue(k)
 			ci, ok := col["meta_"+k]
 			if !ok {
-				if isZero(v) || (k == "level") {
+				if isZero(v) {
 					continue
 				}
 				if l, isList := v.([]string); isList && !listInvertible(l) {
@@ -848,7 +843,10 @@ func genExportSpec(t *rapid.T) ExportSpec {
 	e.IncludeEmb = rapid.Bool().Draw(t, "includeEmb")
 	e.Flatten = rapid.Bool().Draw(t, "flatten")
 	e.Header = rapid.IntRange(0, 3).Draw(t, "header") > 0
-	e.Pretty = vr.Want("jsonl-pretty", rapid.Bool().Draw(t, "pretty")) || (e.Format != 0 && rapid.Bool().Draw(t, "pretty2"))
+	e.Pretty = rapid.Bool().Draw(t, "pretty")
+	if e.Format == int(rag.ExportFormatJSONL) {
+		e.Pretty = vr.Want("jsonl-pretty", e.Pretty)
+	}
 	if rapid.IntRange(0, 2).Draw(t, "fieldsSet") == 0 {
 		e.FieldsSet = true
 		pool := append(append([]string{}, metaKeys...), "nosuchfield", "")
